@@ -279,7 +279,7 @@ fn run_one(script: &[Action], sub_mode: usize, ch: &Chooser) -> Obs {
         let mut next = 0;
         loop {
             match ex.step(ch, next < script.len()) {
-                Pick::Task(_) => {}
+                Pick::Task => {}
                 Pick::Quiescent => break,
                 Pick::Env => {
                     let a = script[next];
